@@ -82,9 +82,57 @@ def qft_structure(run, nmax):
     for (n, sw, real), v in zip(reals, vals):
         run.case(["qft-structure", n, sw])
         if tolist(parse_coq(v)) != real:
-            run.find(f"qft:structure:{n}:{sw}", "QFT gate list differs from the documented ladder (model `qft n`)",
-                     {"n": n, "with_swaps": sw, "real": real[:40]})
+            run.find(f"corr:qft:structure:{n}:{sw}", "QFT gate list differs from the documented ladder (model `qft n`)",
+                     {"n": n, "with_swaps": sw, "real": real[:40]}, concrete=False)
+        if n <= 8:
+            d = qft_numeric(n, sw)
+            if d > 1e-9:
+                run.find(f"qft:dft:{n}:{sw}", "QFT(n).unitary() is not the DFT matrix (numeric, tolerance 1e-9)",
+                         {"n": n, "with_swaps": sw, "max_abs_diff": d})
     run.sample({"qft_structure": "n=1..%d, both variants" % nmax, "example_n3": reals[4][2]})
+
+
+def qft_numeric(n, sw):
+    from qibo.models import QFT
+    N = 2 ** n
+    U = np.asarray(QFT(n, with_swaps=sw).unitary())
+    F = np.array([[np.exp(2j * np.pi * x * y / N) for y in range(N)] for x in range(N)]) / np.sqrt(N)
+    if not sw:
+        rev = lambda x: int(format(x, f"0{n}b")[::-1], 2)
+        F = np.array([F[rev(x)] for x in range(N)])
+    return float(np.abs(U - F).max())
+
+
+def qft_product_test(run, rng, count):
+    """ties the product-state rules (Model.v pstep) to the real simulator: the phases computed by `prun` in Coq
+    give the product state; compared with QFT(n)|x> from the numpy backend ('test', tolerance 1e-10)"""
+    from qibo.models import QFT
+    cases, exprs = [], []
+    for _ in range(count):
+        n = rng.randint(1, 8)
+        x = [rng.randint(0, 1) for _ in range(n)]
+        sw = rng.random() < 0.5
+        cases.append((n, x, sw))
+        exprs.append(f"option_map (fun f : qst => map (fun q => match f q with QP p => p | QB _ => 0 end) (seq 0 {n})) "
+                     f"(prun {n} (qft {n} {'true' if sw else 'false'}) (qinit {coq_bits(x)}))")
+    vals = run.coq_eval("C20_qft_product.v", HEADER, exprs)
+    if vals is None:
+        run.find("coq:C20_qft_product", "generated file does not compile", {}, concrete=False)
+        return
+    for (n, x, sw), v in zip(cases, vals):
+        ph = parse_coq(v)
+        run.case(["qft_product", n, x, sw])
+        init = np.zeros(2 ** n, dtype=complex)
+        init[int("".join(map(str, x)), 2)] = 1
+        real = np.asarray(QFT(n, with_swaps=sw)(init).state())
+        if ph is None:
+            run.find(f"corr:qft:product:{n}", "product-state rules do not apply to the QFT gate list", {"n": n, "x": x}, concrete=False)
+            continue
+        N = 2 ** n
+        exp = np.array([np.exp(2j * np.pi * sum(((y >> (n - 1 - q)) & 1) * ph[q] for q in range(n)) / N) for y in range(N)]) / np.sqrt(N)
+        if np.abs(real - exp).max() > TOL:
+            run.find(f"corr:qft:product:{n}:{sw}", "QFT(n)|x> differs from the product state predicted by the pstep rules",
+                     {"n": n, "x": x, "with_swaps": sw, "max_abs_diff": float(np.abs(real - exp).max())}, concrete=False)
 
 
 def dft_literal(n, with_swaps):
@@ -138,16 +186,9 @@ def qft_instances(run, nmax):
         if res[t[0]]:
             continue
         n, sw = t[2], t[3]
-        N = 2 ** n
-        U = np.asarray(QFT(n, with_swaps=sw).unitary())
-        F = np.array([[np.exp(2j * np.pi * x * y / N) for y in range(N)] for x in range(N)]) / np.sqrt(N)
-        if not sw:
-            rev = lambda x: int(format(x, f"0{n}b")[::-1], 2)
-            F = np.array([F[rev(x)] for x in range(N)])
-        d = float(np.abs(U - F).max())
+        d = qft_numeric(n, sw)
         if d > 1e-9:
-            run.refuted.append(t[0])
-            run.find(f"qft:dft:{n}:{sw}", "QFT(n).unitary() is not the DFT matrix", {"n": n, "with_swaps": sw, "max_abs_diff": d})
+            run.refuted.append(t[0])      # the concrete finding qft:dft:n:sw is reported by qft_structure
         else:
             run.oblige(t[0], False, "bounded-instance")
             run.find(f"unproved:qft:{n}:{sw}", "QFT instance obligation no longer checks", {"n": n, "with_swaps": sw}, concrete=False)
@@ -201,8 +242,8 @@ def simple_encoders(run, rng, count):
         else:
             exp = [["H", 0]] + [["CNOT", a, b] for a, b in m]
         if exp != real:
-            run.find(f"{kind}:structure:{hashlib.sha1(json.dumps(meta).encode()).hexdigest()[:10]}",
-                     f"{kind} gate list differs from the model", {**meta, "real": real, "model": exp})
+            run.find(f"corr:{kind}:structure:{hashlib.sha1(json.dumps(meta).encode()).hexdigest()[:10]}",
+                     f"{kind} gate list differs from the model", {**meta, "real": real, "model": exp}, concrete=False)
         if not okstate:
             run.find(f"{kind}:state:{hashlib.sha1(json.dumps(meta).encode()).hexdigest()[:10]}",
                      f"{kind} does not prepare the documented state", meta)
@@ -253,8 +294,8 @@ def unary_structure(run):
             q = [[type(g).__name__] + [int(x) for x in g.qubits] for g in c.queue]
             ok = q == [["X", n - 1]] + [["RBS", a, b] for a, b in pairs]
         if not ok:
-            run.find(f"unary:pairs:{arch}:{n}", "_generate_rbs_pairs / unary_encoder gate list differs from the model",
-                     {"architecture": arch, "n": n, "real": pairs, "model": m})
+            run.find(f"corr:unary:pairs:{arch}:{n}", "_generate_rbs_pairs / unary_encoder gate list differs from the model",
+                     {"architecture": arch, "n": n, "real": pairs, "model": m}, concrete=False)
 
 
 def unary_amplitudes(circuit, n):
@@ -436,8 +477,8 @@ def hw_structure(run, nmax):
         mx, mg = parse_coq(v)
         run.case(["hw_structure", n, k, opt])
         if other or list(mx) != xs or mg is None or [[a, b, list(cs)] for (a, b, cs) in mg] != gl:
-            run.find(f"hw:structure:{n}:{k}:{opt}", "hamming_weight_encoder gate skeleton differs from the model",
-                     {"n": n, "k": k, "optimize_controls": opt, "real": gl[:20], "other_gates": other})
+            run.find(f"corr:hw:structure:{n}:{k}:{opt}", "hamming_weight_encoder gate skeleton differs from the model",
+                     {"n": n, "k": k, "optimize_controls": opt, "real": gl[:20], "other_gates": other}, concrete=False)
 
 
 def weight_k_indices(n, k):
@@ -529,6 +570,38 @@ def binary_data(run, rng, count):
 BIN_HOPF_ZERO = []
 
 
+def binary_structure(run, nmax):
+    """gate skeletons of binary_encoder (real data) against hopf_skeleton / hyper_skeleton"""
+    from qibo.models.encodings import binary_encoder
+    exprs, reals = [], []
+    for par, coq in (("hopf", "Some (hopf_skeleton {n})"), ("hyperspherical", "hyper_skeleton {n}")):
+        for n in range(1, nmax + 1):
+            c = binary_encoder(np.arange(1.0, 2 ** n + 1), parametrization=par)
+            q = []
+            for g in c.queue:
+                nm = type(g).__name__
+                if nm == "X":
+                    q.append([0, [int(g.qubits[0])]])
+                elif nm in ("RY", "CRY"):
+                    q.append([1, [int(g.target_qubits[0])] + sorted(int(x) for x in g.control_qubits)])
+                elif nm == "RBS":
+                    q.append([2, [int(x) for x in g.target_qubits] + sorted(int(x) for x in g.control_qubits)])
+                else:
+                    q.append([99, [int(x) for x in g.qubits]])
+            reals.append((par, n, q))
+            exprs.append(coq.format(n=n))
+    vals = run.coq_eval("C20_binary_struct.v", HEADER, exprs, timeout=900)
+    if vals is None:
+        run.find("coq:C20_binary_struct", "generated file does not compile", {}, concrete=False)
+        return
+    for (par, n, q), v in zip(reals, vals):
+        m = parse_coq(v)
+        run.case(["binary_structure", par, n])
+        if m is None or tolist(m) != q:
+            run.find(f"corr:binary:structure:{par}:{n}", "binary_encoder gate skeleton differs from the model",
+                     {"parametrization": par, "n": n, "real": q[:30]}, concrete=False)
+
+
 def hopf_zero_block(run):
     from qibo.models.encodings import binary_encoder
     data = np.array([0.0, 0.0, 1.0, 2.0])
@@ -554,7 +627,22 @@ RULE = ("QFT: n=1..5 (6 thorough) operator obligations (both variants), n<=12 st
         "complex; binary_encoder hyperspherical (real/complex) and hopf (real)")
 
 
+def cap_findings(run, per_class=3):
+    orig, count = run.find, {}
+
+    def find(key, what, replay=None, concrete=True):
+        parts = key.split(":")
+        fam = ":".join(parts[:3] if parts[0] == "corr" else parts[:2])
+        count[fam] = count.get(fam, 0) + 1
+        if count[fam] <= per_class:
+            orig(key, what, replay, concrete)
+        else:
+            run.notes["suppressed_duplicate_findings"] = {**run.notes.get("suppressed_duplicate_findings", {}), fam: count[fam] - per_class}
+    run.find = find
+
+
 def main(run):
+    cap_findings(run)
     rng = random.Random(run.seed)
     thorough = run.tier == "thorough"
     run.trusted += ["Coq 8.16.1 kernel, vm_compute", "Base/TrigNF.v, Base/TrigMat.v (proved sound) for the QFT instances",
@@ -573,19 +661,22 @@ def main(run):
     run.notes["print_assumptions"] = pa
     run.not_proved += [
         "qft_ok for all n against 2^n x 2^n matrices: NOT proved; proved: operator equality for n = 1..5 (6 thorough) (bounded instances, TrigMat) "
-        "and the gate-list structure for all n (qft_structure)",
+        "and, for ALL n, qft_product_state + qft_product_is_dft in the product-state semantics of Model.v (rules trusted; numerically "
+        "tested against the simulator for n<=8), and the gate-list structure (qft_structure)",
         "ehrlich_enumerates for all n: NOT proved; proved by vm_compute for every 1 <= k < n <= 10 (bound stated in the theorem)",
         "unary_tree_ok / hw_encoder_ok / binary_encoder amplitudes for all data: NOT proved (angles are acos/atan2 of data); "
         "proved: RBS chains act as 2x2 rotations on unary amplitudes and the diagonal chain loads x_k/N_0 (ring level, all n); the rest is tested",
     ]
     qft_structure(run, 12)
     qft_instances(run, 6 if thorough else 5)
+    qft_product_test(run, rng, 120 if thorough else 40)
     simple_encoders(run, rng, 120 if thorough else 40)
     unary_structure(run)
     run.notes["unary_data"] = unary_data(run, rng, 300 if thorough else 80)
     run.notes["ehrlich"] = ehrlich_corr(run, rng, 10 if thorough else 9)
     hw_structure(run, 7 if thorough else 6)
     run.notes["hw_data"] = hw_data(run, rng, 200 if thorough else 50)
+    binary_structure(run, 6 if thorough else 5)
     run.notes["binary_data"] = binary_data(run, rng, 200 if thorough else 60)
     hopf_zero_block(run)
     return run.finish(rule=RULE)
@@ -610,7 +701,7 @@ def replay(run, data):
                 run.find(key, data.get("what", ""), rp)
     elif key.startswith("binary:hopf"):
         hopf_zero_block(run)
-    elif key.startswith("qft:"):
+    elif key.startswith("qft:") or key.startswith("corr:qft"):
         qft_structure(run, 12)
         qft_instances(run, 4)
     elif key.startswith("hw:data") or key.startswith("binary:data"):
